@@ -665,7 +665,7 @@ fn c30_one(o: &Opts, out: &mut Out, run: &mut u64, rng: &mut StdRng, k: u64, fir
 fn c30_part(o: &Opts, out: &mut Out, run: &mut u64, known: bool) {
     let thorough = o.thorough();
     let mut rng = o.rng(if known { 301 } else { 30 });
-    let reps = if thorough { 6 } else { 1 };
+    let reps = if !thorough { 1 } else if known { 2 } else { 6 };
     let mut k = 0u64;
     for rep in 0..reps {
         for in_contract in [false, true] {
